@@ -319,11 +319,13 @@ pub struct ExecCfg {
     pub max_steps: usize,
     /// run the push loop with this interval
     pub push_interval_ms: Option<u64>,
+    /// if non-empty, the phase (µs) is a data choice among these values (overrides `phase_us`)
+    pub phase_choices: Vec<u64>,
 }
 
 impl Default for ExecCfg {
     fn default() -> Self {
-        ExecCfg { caps: (0, 0), phase_us: 0, points_on: true, max_steps: 20_000, push_interval_ms: None }
+        ExecCfg { caps: (0, 0), phase_us: 0, points_on: true, max_steps: 20_000, push_interval_ms: None, phase_choices: vec![] }
     }
 }
 
@@ -388,9 +390,26 @@ where
     F: FnOnce(Ctx) -> Fut,
     Fut: Future<Output = ScenarioOut>,
 {
-    let rt = tokio::runtime::Builder::new_current_thread().enable_time().start_paused(true).build().unwrap();
     let shared: Sh = Arc::new(Mutex::new(Shared::new(prefix.to_vec(), cfg.caps)));
     shared.lock().unwrap().points_on = cfg.points_on;
+    let want = if cfg.phase_choices.is_empty() {
+        cfg.phase_us % 100_000
+    } else {
+        let k = shared.lock().unwrap().pick(Kind::Data, "phase", cfg.phase_choices.len());
+        cfg.phase_choices[k] % 100_000
+    };
+    // The runtime's 1 ms timer grid is anchored at the (wall-clock) instant the runtime is created, the server's
+    // 100 ms deadline grid at a process-wide epoch.  Their offset modulo 1 ms is therefore random.  Every offset
+    // strictly inside (0, 1 ms) behaves identically at the whole-millisecond instants the harness uses; an offset of
+    // (almost) exactly 0 does not.  Re-create the runtime until the offset is safely inside.
+    let (rt, delta) = loop {
+        let rt = tokio::runtime::Builder::new_current_thread().enable_time().start_paused(true).build().unwrap();
+        let phase = rt.block_on(async { grid_phase_us() });
+        let delta = (want + 100_000 - phase % 100_000) % 100_000;
+        if (5..=995).contains(&(delta % 1000)) {
+            break (rt, delta);
+        }
+    };
     deltio::verif::install(Some(Arc::new(Ctl(shared.clone()))));
     tokio::verif_hook::set_controller(Some(Arc::new(Ctl(shared.clone()))));
     CUR.with(|c| *c.borrow_mut() = Some(shared.clone()));
@@ -398,12 +417,8 @@ where
     QUIET_PANICS.with(|q| q.set(true));
     let out = rt.block_on(tokio::task::unconstrained(async {
         // align t0 with the requested phase of the 100 ms grid
-        let phase = grid_phase_us();
-        let want = cfg.phase_us % 100_000;
-        let delta = (want + 100_000 - phase % 100_000) % 100_000;
-        if delta > 0 {
-            tokio::time::advance(Duration::from_micros(delta)).await;
-        }
+        tokio::time::advance(Duration::from_micros(delta)).await;
+        debug_assert_eq!(grid_phase_us() % 100_000, want);
         let t0 = Instant::now();
         shared.lock().unwrap().t0 = Some(t0);
         let app = Arc::new(Deltio::new());
